@@ -186,7 +186,7 @@ class Spec(PropSpec):
                     "code as it is: window reopening (class ZeroWindowStall, c06_quiescent_complete_refuted)")
 
     def gen_cases(self, ctx):
-        n = 200 if ctx.tier == "quick" else 3000
+        n = 360 if ctx.tier == "quick" else 3000
         if ctx.escalate:
             n *= 2
         cases = list(F.exhaustive_single_faults())
